@@ -132,6 +132,7 @@ let parse_op (tok : string) : op =
   | ["F"; c; r; f] -> OFormula (z_of_string c, z_of_string r, bytes_of_hex f)
   | ["Y"; c; r; st] -> OStyle (z_of_string c, z_of_string r, z_of_string st)
   | ["R"; r; st] -> ORowStyle (z_of_string r, z_of_string st)
+  | ["Z"; c; st] -> OColStyle (z_of_string c, z_of_string st)
   | ["M"; c1; r1; c2; r2] -> OMerge (z_of_string c1, z_of_string r1, z_of_string c2, z_of_string r2)
   | ["W"] -> OSave
   | _ -> failwith ("bad op " ^ tok)
@@ -177,6 +178,11 @@ let () =
       let wb = wrun (List.map parse_wop a) init_wb in
       let sh = List.map (fun s -> hex_of_bytes s.w_name ^ ":" ^ string_of_z s.w_id ^ ":" ^ (if s.w_state = Z0 then "v" else "h") ^ ":" ^ string_of_z s.w_content) wb.sheets in
       "active=" ^ string_of_z (active_index wb) ^ " " ^ String.concat " " sh ^ " consistent=" ^ str_bool (consistent wb))
+
+let () =
+  reg "c17.run" (fun a ->
+      let (ids, r) = run_styles (List.map z_of_string a) init_reg in
+      "ids " ^ String.concat "," (List.map string_of_z ids) ^ " size " ^ string_of_int (List.length r))
 
 let () =
   try
